@@ -171,62 +171,131 @@ Definition to_load (s : state) (n : nat) (tok : bool) : state :=
      cview := cview s; lview := lview s; wviews := wviews s;
      returned := returned s |}.
 
+(** Successor states, one function per transition. *)
+
+Definition st_begin (s : state) (n : nat) (rest : list nat) : state :=
+  let extra := n - length (ws s) in
+  {| script := rest;
+     cst := (if Nat.eqb n 0 then CRun 0 else CSend 1 n);
+     ws := ws s ++ repeat WIdle extra;
+     rc := n; alive := true; cur := S (cur s); token := token s;
+     calls := calls s; panics := panics s;
+     slots := repeat None (S n);
+     bad := bad s;
+     cview := cview s; lview := []; wviews := wviews s ++ repeat [] extra;
+     returned := returned s |}.
+
+Definition st_send (s : state) (k n : nat) : state :=
+  {| script := script s;
+     cst := (if Nat.eqb k n then CRun n else CSend (S k) n);
+     ws := setw s k (WRun (cur s));
+     rc := rc s; alive := alive s; cur := cur s; token := token s;
+     calls := calls s; panics := panics s; slots := slots s; bad := bad s;
+     cview := cview s; lview := lview s;
+     (* the channel hands the caller's view to the worker *)
+     wviews := setview s k (vunion (cview s) (getview s k));
+     returned := returned s |}.
+
+Definition st_run0 (s : state) (n : nat) (p : bool) : state :=
+  {| script := script s; cst := CLoad n; ws := ws s;
+     rc := rc s; alive := alive s; cur := cur s; token := token s;
+     calls := calls s ++ [(cur s, 0)];
+     panics := (if p then panics s ++ [(cur s, 0)] else panics s);
+     slots := (if p then slots s else set_nth 0 (Some 0) (slots s));
+     bad := bad s;
+     cview := vadd (cur s, 0) (cview s); lview := lview s; wviews := wviews s;
+     returned := returned s |}.
+
+(** The loop condition held: on to [park]. *)
+Definition st_topark (s : state) (n : nat) (cv : view) : state :=
+  {| script := script s; cst := CPark n; ws := ws s;
+     rc := rc s; alive := alive s; cur := cur s; token := token s;
+     calls := calls s; panics := panics s; slots := slots s; bad := bad s;
+     cview := cv; lview := lview s; wviews := wviews s;
+     returned := returned s |}.
+
+Definition st_wrun (s : state) (k b : nat) (p : bool) : state :=
+  {| script := script s; cst := cst s;
+     ws := setw s k (WClone b);
+     rc := rc s; alive := alive s; cur := cur s; token := token s;
+     calls := calls s ++ [(b, k)];
+     panics := (if p then panics s ++ [(b, k)] else panics s);
+     slots := (if p then slots s else set_nth k (Some k) (slots s));
+     bad := upd_bad s (touch_ok s b);
+     cview := cview s; lview := lview s;
+     wviews := setview s k (vadd (b, k) (getview s k));
+     returned := returned s |}.
+
+Definition st_wclone (s : state) (k b : nat) : state :=
+  {| script := script s; cst := cst s;
+     ws := setw s k (WDec b);
+     rc := rc s; alive := alive s; cur := cur s; token := token s;
+     calls := calls s; panics := panics s; slots := slots s;
+     bad := upd_bad s (touch_ok s b);
+     cview := cview s; lview := lview s; wviews := wviews s;
+     returned := returned s |}.
+
+Definition st_wdec (c : cfg) (s : state) (k b : nat) : state :=
+  {| script := script s; cst := cst s;
+     ws := setw s k (if Nat.eqb (rc s) (c_unpark_old c) then WUnpark b else WIdle);
+     rc := rc s - 1; alive := alive s; cur := cur s; token := token s;
+     calls := calls s; panics := panics s; slots := slots s;
+     bad := upd_bad s (touch_ok s b && negb (Nat.eqb (rc s) 0));
+     cview := cview s;
+     lview := (if is_release (c_dec c) then vunion (getview s k) (lview s) else lview s);
+     wviews := wviews s;
+     returned := returned s |}.
+
+Definition st_wunpark (s : state) (k : nat) : state :=
+  {| script := script s; cst := cst s;
+     ws := setw s k WIdle;
+     rc := rc s; alive := alive s; cur := cur s; token := true;
+     calls := calls s; panics := panics s; slots := slots s; bad := bad s;
+     cview := cview s; lview := lview s; wviews := wviews s;
+     returned := returned s |}.
+
+Definition st_drop (s : state) : state :=
+  {| script := []; cst := CDone; ws := ws s;
+     rc := rc s; alive := alive s; cur := cur s; token := token s;
+     calls := calls s; panics := panics s; slots := slots s; bad := bad s;
+     cview := cview s; lview := lview s; wviews := wviews s;
+     returned := returned s |}.
+
+Definition st_wexit (s : state) (k : nat) : state :=
+  {| script := script s; cst := CDone;
+     ws := setw s k WExit;
+     rc := rc s; alive := alive s; cur := cur s; token := token s;
+     calls := calls s; panics := panics s; slots := slots s; bad := bad s;
+     cview := cview s; lview := lview s; wviews := wviews s;
+     returned := returned s |}.
+
+(** What the acquire load adds to the caller's view. *)
+Definition load_view (c : cfg) (s : state) : view :=
+  if is_acquire (c_load c) then vunion (lview s) (cview s) else cview s.
+
+(** Does the wait loop's condition say "leave"? *)
+Definition leave (c : cfg) (s : state) : bool :=
+  if c_nonzero c then Nat.eqb (rc s) 0 else negb (Nat.eqb (rc s) 0).
+
 Definition step (c : cfg) (s : state) (l : label) : option state :=
   match l, cst s with
   | EBegin n, CIdle =>
       match script s with
-      | m :: rest =>
-          if Nat.eqb n m then
-            let extra := n - length (ws s) in
-            Some {| script := rest;
-                    cst := (if Nat.eqb n 0 then CRun 0 else CSend 1 n);
-                    ws := ws s ++ repeat WIdle extra;
-                    rc := n; alive := true; cur := S (cur s); token := token s;
-                    calls := calls s; panics := panics s;
-                    slots := repeat None (S n);
-                    bad := bad s;
-                    cview := cview s; lview := []; wviews := wviews s ++ repeat [] extra;
-                    returned := returned s |}
-          else None
+      | m :: rest => if Nat.eqb n m then Some (st_begin s n rest) else None
       | [] => None
       end
   | ESend k', CSend k n =>
       if Nat.eqb k' k then
         match getw s k with
-        | Some WIdle =>
-            Some {| script := script s;
-                    cst := (if Nat.eqb k n then CRun n else CSend (S k) n);
-                    ws := setw s k (WRun (cur s));
-                    rc := rc s; alive := alive s; cur := cur s; token := token s;
-                    calls := calls s; panics := panics s; slots := slots s; bad := bad s;
-                    cview := cview s; lview := lview s;
-                    (* the channel hands the caller's view to the worker *)
-                    wviews := setview s k (vunion (cview s) (getview s k));
-                    returned := returned s |}
+        | Some WIdle => Some (st_send s k n)
         | _ => None
         end
       else None
-  | ERun0 p, CRun n =>
-      Some {| script := script s; cst := CLoad n; ws := ws s;
-              rc := rc s; alive := alive s; cur := cur s; token := token s;
-              calls := calls s ++ [(cur s, 0)];
-              panics := (if p then panics s ++ [(cur s, 0)] else panics s);
-              slots := (if p then slots s else set_nth 0 (Some 0) (slots s));
-              bad := bad s;
-              cview := vadd (cur s, 0) (cview s); lview := lview s; wviews := wviews s;
-              returned := returned s |}
+  | ERun0 p, CRun n => Some (st_run0 s n p)
   | ELoad, CLoad n =>
-      let cv := if is_acquire (c_load c) then vunion (lview s) (cview s) else cview s in
-      let leave := if c_nonzero c then Nat.eqb (rc s) 0 else negb (Nat.eqb (rc s) 0) in
-      if leave then
-        (* the loop condition is false: broadcast returns, the task block dies *)
-        Some (do_return s n cv (token s))
-      else
-        Some {| script := script s; cst := CPark n; ws := ws s;
-                rc := rc s; alive := alive s; cur := cur s; token := token s;
-                calls := calls s; panics := panics s; slots := slots s; bad := bad s;
-                cview := cv; lview := lview s; wviews := wviews s;
-                returned := returned s |}
+      (* leaving the loop: broadcast returns, the task block dies *)
+      if leave c s then Some (do_return s n (load_view c s) (token s))
+      else Some (st_topark s n (load_view c s))
   | EPark, CPark n =>
       if token s then
         (* [while]: re-check the counter; [if]: fall through and return *)
@@ -235,78 +304,17 @@ Definition step (c : cfg) (s : state) (l : label) : option state :=
   | ESpurious, CPark n =>
       Some (if c_loop c then to_load s n (token s) else do_return s n (cview s) (token s))
   | EWRun k p, _ =>
-      match getw s k with
-      | Some (WRun b) =>
-          Some {| script := script s; cst := cst s;
-                  ws := setw s k (WClone b);
-                  rc := rc s; alive := alive s; cur := cur s; token := token s;
-                  calls := calls s ++ [(b, k)];
-                  panics := (if p then panics s ++ [(b, k)] else panics s);
-                  slots := (if p then slots s else set_nth k (Some k) (slots s));
-                  bad := upd_bad s (touch_ok s b);
-                  cview := cview s; lview := lview s;
-                  wviews := setview s k (vadd (b, k) (getview s k));
-                  returned := returned s |}
-      | _ => None
-      end
+      match getw s k with Some (WRun b) => Some (st_wrun s k b p) | _ => None end
   | EWClone k, _ =>
-      match getw s k with
-      | Some (WClone b) =>
-          Some {| script := script s; cst := cst s;
-                  ws := setw s k (WDec b);
-                  rc := rc s; alive := alive s; cur := cur s; token := token s;
-                  calls := calls s; panics := panics s; slots := slots s;
-                  bad := upd_bad s (touch_ok s b);
-                  cview := cview s; lview := lview s; wviews := wviews s;
-                  returned := returned s |}
-      | _ => None
-      end
+      match getw s k with Some (WClone b) => Some (st_wclone s k b) | _ => None end
   | EWDec k, _ =>
-      match getw s k with
-      | Some (WDec b) =>
-          Some {| script := script s; cst := cst s;
-                  ws := setw s k (if Nat.eqb (rc s) (c_unpark_old c) then WUnpark b else WIdle);
-                  rc := rc s - 1; alive := alive s; cur := cur s; token := token s;
-                  calls := calls s; panics := panics s; slots := slots s;
-                  bad := upd_bad s (touch_ok s b && negb (Nat.eqb (rc s) 0));
-                  cview := cview s;
-                  lview := (if is_release (c_dec c) then vunion (getview s k) (lview s) else lview s);
-                  wviews := wviews s;
-                  returned := returned s |}
-      | _ => None
-      end
+      match getw s k with Some (WDec b) => Some (st_wdec c s k b) | _ => None end
   | EWUnpark k, _ =>
-      match getw s k with
-      | Some (WUnpark b) =>
-          Some {| script := script s; cst := cst s;
-                  ws := setw s k WIdle;
-                  rc := rc s; alive := alive s; cur := cur s; token := true;
-                  calls := calls s; panics := panics s; slots := slots s; bad := bad s;
-                  cview := cview s; lview := lview s; wviews := wviews s;
-                  returned := returned s |}
-      | _ => None
-      end
+      match getw s k with Some (WUnpark b) => Some (st_wunpark s k) | _ => None end
   | EDrop, CIdle =>
-      match script s with
-      | [] =>
-          Some {| script := []; cst := CDone; ws := ws s;
-                  rc := rc s; alive := alive s; cur := cur s; token := token s;
-                  calls := calls s; panics := panics s; slots := slots s; bad := bad s;
-                  cview := cview s; lview := lview s; wviews := wviews s;
-                  returned := returned s |}
-      | _ => None
-      end
+      match script s with [] => Some (st_drop s) | _ => None end
   | EWExit k, CDone =>
-      match getw s k with
-      | Some WIdle =>
-          Some {| script := script s; cst := CDone;
-                  ws := setw s k WExit;
-                  rc := rc s; alive := alive s; cur := cur s; token := token s;
-                  calls := calls s; panics := panics s; slots := slots s; bad := bad s;
-                  cview := cview s; lview := lview s; wviews := wviews s;
-                  returned := returned s |}
-      | _ => None
-      end
+      match getw s k with Some WIdle => Some (st_wexit s k) | _ => None end
   | _, _ => None
   end.
 
